@@ -2087,6 +2087,17 @@ func (s *ImmuStore) DiscardPrecommittedTxsSince(txID uint64) (int, error) {
 
 	txsToDiscard := int(s.inmemPrecommittedTxID + 1 - txID)
 
+	// the transactions that follow overwrite the discarded ones in the tx log
+	var committedTxLogSize int64
+
+	if s.committedTxID > 0 {
+		txOff, txSize, err := s.txOffsetAndSize(s.committedTxID)
+		if err != nil {
+			return 0, err
+		}
+		committedTxLogSize = txOff + int64(txSize)
+	}
+
 	err := s.aht.ResetSize(s.aht.Size() - uint64(txsToDiscard))
 	if err != nil {
 		return 0, err
@@ -2108,19 +2119,22 @@ func (s *ImmuStore) DiscardPrecommittedTxsSince(txID uint64) (int, error) {
 	if txID-1 == s.committedTxID {
 		s.inmemPrecommittedTxID = s.committedTxID
 		s.inmemPrecommittedAlh = s.committedAlh
+		s.precommittedTxLogSize = committedTxLogSize
 		return txsToDiscard, nil
 	}
 
-	tx, alh, _, _, err := s.cLogBuf.readAhead(int(s.inmemPrecommittedTxID-s.committedTxID-1) - txsToDiscard)
+	tx, alh, txOff, txSize, err := s.cLogBuf.readAhead(int(s.inmemPrecommittedTxID-s.committedTxID-1) - txsToDiscard)
 	if err != nil || tx != txID-1 {
 		s.inmemPrecommittedTxID = s.committedTxID
 		s.inmemPrecommittedAlh = s.committedAlh
+		s.precommittedTxLogSize = committedTxLogSize
 		s.logger.Warningf("precommitted transactions has been discarded due to unexpected error in cLogBuf")
 		return 0, err
 	}
 
 	s.inmemPrecommittedTxID = txID - 1
 	s.inmemPrecommittedAlh = alh
+	s.precommittedTxLogSize = txOff + int64(txSize)
 
 	return txsToDiscard, nil
 }
